@@ -3175,6 +3175,9 @@ static int32_t parseGeneralNames(psPool_t *pool, const unsigned char **buf,
         {
             /* Remove zero byte (in string) from returned length. */
             activeName->dataLen -= 1;
+            /* The allowance is per name: the following names need their
+               own terminator again. */
+            terminating_nils = 1;
         }
 #endif /* DISABLE_X509_GENERAL_NAME_SUPPORT_C_NULL */
 
